@@ -311,7 +311,7 @@ fn run_suffix<S: CmdSet>(s: &mut Sess<S>, cfg: &Config, suffix: &[Op], typed_lin
     seat(s, &mut m, "after the failure")?;
     if outage > 0 {
         let now = st.borrow().calls;
-        st.borrow_mut().fault = Some(Fault { call: now, permanent: true, outage: 0 });
+        st.borrow_mut().fault = Some(Fault { call: now, permanent: true, outage: 0, kind: 0 });
     }
     let mut dec = RefDecoder::new();
     for (bi, &b) in bytes.iter().enumerate() {
@@ -560,23 +560,29 @@ fn run_shard(ctx: &ShardCtx) {
         let n = match vmodel::engine::guarded(|| total_calls(&case)) {
             Ok(Ok(n)) => n,
             Ok(Err((e, o))) => {
-                ctx.fail(Failure::new("fault-corpus", fault_json(&case, Fault { call: usize::MAX, permanent: false, outage: 0 }, &[]), e, o));
+                ctx.fail(Failure::new("fault-corpus", fault_json(&case, Fault { call: usize::MAX, permanent: false, outage: 0, kind: 0 }, &[]), e, o));
                 break;
             }
             Err(p) => {
-                ctx.fail(Failure::new("fault-corpus", fault_json(&case, Fault { call: usize::MAX, permanent: false, outage: 0 }, &[]), "no panic in the clean run", p));
+                ctx.fail(Failure::new("fault-corpus", fault_json(&case, Fault { call: usize::MAX, permanent: false, outage: 0, kind: 0 }, &[]), "no panic in the clean run", p));
                 break;
             }
         };
         for k in 0..n {
             // once; until the failing call has returned; and, further, while 1-3 more input bytes arrive
-            for (permanent, outage) in [(false, 0u8), (true, 0), (true, 1), (true, 2), (true, 3)] {
+            // (the last two rows: every kind of error `embedded_io` names, at this call, once and for good, first suffix only)
+            let kinds = vmodel::sink::KINDS.len() as u8;
+            let modes = [(false, 0u8, 0u8, 1), (true, 0, 0, 1), (true, 1, 0, 1), (true, 2, 0, 1), (true, 3, 0, 1), (false, 0, 1, kinds - 1), (true, 0, 1, kinds - 1)];
+            for (permanent, outage, kind) in modes.into_iter().flat_map(|(p, o, k0, nk)| (k0..k0 + nk).map(move |kd| (p, o, kd))) {
                 for (xi, suffix) in sfx.iter().enumerate() {
+                    if kind != 0 && xi != 0 {
+                        continue;
+                    }
                     idx += 1;
                     if !ctx.mine(idx) {
                         continue;
                     }
-                    let fault = Fault { call: k, permanent, outage };
+                    let fault = Fault { call: k, permanent, outage, kind };
                     ctx.count_eval();
                     if ctx.trace_file.is_some() {
                         ctx.trace(&json!({"check": "fault-corpus", "case": fault_json(&case, fault, suffix)}));
@@ -585,8 +591,8 @@ fn run_shard(ctx: &ShardCtx) {
                         Ok(Ok((nt, _))) => {
                             if nt {
                                 ctx.class("corpus:fault inside heavy output");
-                                ctx.nontrivial(fingerprint(&("corpus", sci, k, permanent, outage, xi)), || {
-                                    json!({"scenario": sc.text, "set": sc.set, "enter_style": es, "fault_call": k, "permanent": permanent, "outage_bytes": outage, "suffix": xi})
+                                ctx.nontrivial(fingerprint(&("corpus", sci, k, permanent, outage, xi, kind)), || {
+                                    json!({"scenario": sc.text, "set": sc.set, "enter_style": es, "fault_call": k, "permanent": permanent, "outage_bytes": outage, "suffix": xi, "error_kind": format!("{:?}", vmodel::sink::KINDS[(k + kind as usize) % vmodel::sink::KINDS.len()])})
                                 });
                             }
                         }
@@ -626,32 +632,32 @@ fn run_shard(ctx: &ShardCtx) {
     let strat = (
         case_strategy(opts, &["raw", "enum", "group"]),
         any::<u16>(),
-        (any::<bool>(), 0u8..5),
+        (any::<bool>(), 0u8..5, 0u8..18),
         proptest::collection::vec(suffix_op, 0..6),
     );
     ctx.run_prop(
         "fault-random",
         ctx.tier.pick(4_000_000, 20_000_000),
         strat,
-        |(c, k, (p, og), sfx)| {
+        |(c, k, (p, og, kd), sfx)| {
             let mut suffix = sfx.clone();
             suffix.push(Op::Enter);
             let n = total_calls(c).unwrap_or(1).max(1);
-            fault_json(c, Fault { call: (*k as usize * n) >> 16, permanent: *p, outage: if *p { *og } else { 0 } }, &suffix)
+            fault_json(c, Fault { call: (*k as usize * n) >> 16, permanent: *p, outage: if *p { *og } else { 0 }, kind: *kd }, &suffix)
         },
-        |(c, k, (p, og), sfx)| {
+        |(c, k, (p, og, kd), sfx)| {
             let mut suffix = sfx.clone();
             suffix.push(Op::Enter);
             let n = match total_calls(c) {
                 Ok(n) => n.max(1),
                 Err((e, o)) => return Err(Failure::new("fault-random", Value::Null, e, o)),
             };
-            let fault = Fault { call: (*k as usize * n) >> 16, permanent: *p, outage: if *p { *og } else { 0 } };
+            let fault = Fault { call: (*k as usize * n) >> 16, permanent: *p, outage: if *p { *og } else { 0 }, kind: *kd };
             match dispatch_set(c, fault, &suffix) {
                 Ok((nt, _)) => {
                     if nt {
                         ctx.class("random:fault inside heavy output");
-                        ctx.nontrivial(fingerprint(&(&c.cfg, &c.ops, fault.call, fault.permanent, fault.outage)), || fault_json(c, fault, &suffix));
+                        ctx.nontrivial(fingerprint(&(&c.cfg, &c.ops, fault.call, fault.permanent, fault.outage, fault.kind)), || fault_json(c, fault, &suffix));
                     }
                     Ok(())
                 }
